@@ -307,6 +307,8 @@ def run(spec):
         if r < 0.5:
             opts["default_label"] = [0, 7, -1][int(rng.integers(3))]
         s = workloads.gen(rng, "grand", pairs=True, **opts)
+        if i % 3 == 2:
+            s["share_label_arrays"] = True  # the moves of this simulation are built from one label array object
         s["T"] = 3000.0
         s["mu"] = float(rng.choice([0.0, 0.3, -0.2]))
         run_one(rec, s, spec["steps"], i)
